@@ -18,7 +18,10 @@
 // FROM, OUT OF OR IN CONNECTION WITH THE SOFTWARE OR THE USE OR OTHER
 // DEALINGS IN THE SOFTWARE.
 
+#[cfg(not(libp2p_verif))]
 mod peers;
+#[cfg(libp2p_verif)]
+pub(crate) mod peers;
 
 use std::{num::NonZeroUsize, time::Duration};
 
